@@ -28,7 +28,9 @@ RULE = ('Hypothesis draws a lexicon L (few own relations) and expand lexicons E1
 ASSUMPTIONS = [
     'identifiers are unique across the three lexicons (prefixed)',
     'explicit expand arguments name installed lexicons',
-    'placeholders are identified by their ILI',
+    'placeholders are identified by their ILI; hypernym_paths is not compared when two lexicons '
+    'are selected (wn then distinguishes placeholders of one ILI by the lexicon of the synset '
+    'they were created from, which the statement leaves open)',
 ]
 
 ILIS = ['i1', 'i2', 'i3', 'i4', 'i5', 'i6', '', '', 'in']
@@ -263,7 +265,11 @@ def oracle(case):
                     out.append(Disc('expand:second-hop-from-placeholder',
                                     f'*INFERRED*[{k["ili"]}].get_related()', exp_next, got_next,
                                     note=rss.key))
-        # hypernym paths through placeholders
+        # hypernym paths through placeholders (with two selected lexicons wn tells apart
+        # placeholders of one ILI by the lexicon of the synset they were created from, so
+        # "simple" is not decidable from ILIs alone: not compared there)
+        if case['selection'] is not None and len(view.sel) > 1:
+            continue
         exp_paths = sorted(reference_paths(view, rss, names))
         got_paths = sorted([_kstr(key_of(x)) for x in path] for path in ss.hypernym_paths())
         if exp_paths != got_paths:
